@@ -16,6 +16,30 @@ instance (r : MemberRef) : Decidable (fieldRefOk r) := by unfold fieldRefOk; inf
 instance (r : MemberRef) : Decidable (methodRefOk r) := by unfold methodRefOk; infer_instance
 instance (h : ClassRead.Handle) : Decidable (handleOk h) := by unfold handleOk; infer_instance
 instance (c : Loadable) : Decidable (loadableOk c) := by cases c <;> simp only [loadableOk] <;> infer_instance
+
+mutual
+def decLoadableOk2 : (c : Loadable) → Decidable (loadableOk2 c)
+  | .cls _ => by unfold loadableOk2; infer_instance
+  | .handle _ => by unfold loadableOk2; infer_instance
+  | .dyn _ _ _ args => by
+    unfold loadableOk2
+    exact @instDecidableAnd _ _ inferInstance (@instDecidableAnd _ _ inferInstance (decLoadablesOk2 args))
+  | .int _ => by unfold loadableOk2; infer_instance
+  | .float _ => by unfold loadableOk2; infer_instance
+  | .long _ => by unfold loadableOk2; infer_instance
+  | .double _ => by unfold loadableOk2; infer_instance
+  | .str _ => by unfold loadableOk2; infer_instance
+  | .mtype _ => by unfold loadableOk2; infer_instance
+def decLoadablesOk2 : (cs : List Loadable) → Decidable (loadablesOk2 cs)
+  | [] => by unfold loadablesOk2; infer_instance
+  | c :: cs => by
+    unfold loadablesOk2
+    exact @instDecidableAnd _ _ (decLoadableOk2 c) (decLoadablesOk2 cs)
+end
+
+instance (c : Loadable) : Decidable (loadableOk2 c) := decLoadableOk2 c
+instance (cs : List Loadable) : Decidable (loadablesOk2 cs) := decLoadablesOk2 cs
+instance (d : ClassRead.InvokeDynamic) : Decidable (indyOk d) := by unfold indyOk; infer_instance
 instance (v : Int) : Decidable (inI8 v) := by unfold inI8; infer_instance
 instance (v : Int) : Decidable (inI16 v) := by unfold inI16; infer_instance
 instance (v : Int) : Decidable (inI32 v) := by unfold inI32; infer_instance
